@@ -262,7 +262,7 @@ def min_boundary(rep, F, rule='R-TABLE'):
             return _const_eval(b)
 
         d = TB.T('param', 2)
-        probs, seen_rel = [], set()
+        probs, seen_rel, unknown_oc = [], set(), []
         want = {'lt': 'neg-cast', 'eq': 'min', 'gt': 'none'}
         for atoms, out in paths:
             rels = {'lt', 'eq', 'gt'}
@@ -304,12 +304,17 @@ def min_boundary(rep, F, rule='R-TABLE'):
                 oc = 'other:' + so[:50]
             if any(bv is None or bv != 2 ** (W - 1) for bv in bvals):
                 probs.append('the magnitude is compared with %s, not with 2^%d' % (sorted(bvals, key=str), W - 1))
+            if oc.startswith('other:'):
+                unknown_oc.append(oc)
+                continue
             for r in sorted(rels):
                 seen_rel.add(r)
                 if oc != want[r]:
                     probs.append('for d %s 2^%d the result must be %s; this path gives %s' % ({'lt': '<', 'eq': '==', 'gt': '>'}[r], W - 1, {'neg-cast': '-(d as i%d)' % W, 'min': 'i%d::MIN' % W, 'none': 'None'}[want[r]], oc))
         if probs:
             rep.violation(rule, key, probs[0], fn.where())
+        elif unknown_oc:
+            rep.undecided(rule, key, 'an outcome of the closure is not recognised: %s' % unknown_oc[0], fn.where())
         elif seen_rel != {'lt', 'eq', 'gt'}:
             rep.undecided(rule, key, 'the three cases d <, ==, > 2^%d are not all recognised (%s)' % (W - 1, sorted(seen_rel)), fn.where())
         else:
